@@ -22,4 +22,5 @@ Emit == c = Seed \/ PrintT(<<"CASE", ToJson(c)>>)
 
 InvRelocation  == c # Seed => SurvivesRelocation(OptionsOf(c))
 InvRemoteSpawn == c # Seed => SurvivesRemoteSpawn(OptionsOf(c))
+InvRemoteChild == c # Seed => SurvivesRemoteChildSpawn(OptionsOf(c))
 ====
